@@ -1463,3 +1463,5 @@ val pin_targets : prog -> machine -> id0 list
 val prog_roots : machine -> id0 list
 
 val cover_b : prog -> machine -> bool
+
+val maps_owned_b : machine -> bool
